@@ -113,7 +113,11 @@ func (b *ParamObjectBuilder) resolveFieldDependency(
 		// Create slice with resolved values
 		slice := reflect.MakeSlice(fieldType, len(values), len(values))
 		for i, val := range values {
-			slice.Index(i).Set(reflect.ValueOf(val))
+			elem, err := injectable(val, elemType)
+			if err != nil {
+				return reflect.Value{}, err
+			}
+			slice.Index(i).Set(elem)
 		}
 
 		return slice, nil
@@ -125,7 +129,7 @@ func (b *ParamObjectBuilder) resolveFieldDependency(
 		if err != nil {
 			return reflect.Value{}, err
 		}
-		return reflect.ValueOf(value), nil
+		return injectable(value, fieldType)
 	}
 
 	// Regular dependency
@@ -134,7 +138,25 @@ func (b *ParamObjectBuilder) resolveFieldDependency(
 		return reflect.Value{}, err
 	}
 
-	return reflect.ValueOf(value), nil
+	return injectable(value, fieldType)
+}
+
+// injectable converts a resolved service into a value that can be stored in a
+// parameter, field or slice element of type target. A nil service (a
+// constructor may leave an interface-typed result nil) becomes the zero value
+// of target. A service that cannot be assigned to target is an error here,
+// not a panic in reflect later.
+func injectable(service any, target reflect.Type) (reflect.Value, error) {
+	if service == nil {
+		return reflect.Zero(target), nil
+	}
+
+	value := reflect.ValueOf(service)
+	if !value.Type().AssignableTo(target) {
+		return reflect.Value{}, fmt.Errorf("service of type %v cannot be used as %v", value.Type(), target)
+	}
+
+	return value, nil
 }
 
 // ResultObjectProcessor processes result objects (Out structs) after construction.
@@ -367,7 +389,10 @@ func (ci *ConstructorInvoker) buildArguments(
 		if err != nil {
 			return nil, fmt.Errorf("failed to resolve parameter %d: %w", i, err)
 		}
-		args[i] = reflect.ValueOf(value)
+		args[i], err = injectable(value, param.Type)
+		if err != nil {
+			return nil, fmt.Errorf("failed to resolve parameter %d: %w", i, err)
+		}
 	}
 
 	return args, nil
@@ -388,7 +413,11 @@ func (ci *ConstructorInvoker) resolveParameter(
 		// Create a slice of the correct type and populate it
 		slice := reflect.MakeSlice(param.Type, len(values), len(values))
 		for i, val := range values {
-			slice.Index(i).Set(reflect.ValueOf(val))
+			elem, err := injectable(val, param.ElemType)
+			if err != nil {
+				return nil, err
+			}
+			slice.Index(i).Set(elem)
 		}
 		return slice.Interface(), nil
 	}
